@@ -237,7 +237,7 @@ def closure(roots, missing=None):
         seen.add(f)
         txt = open(os.path.join(COQ, f)).read()
         txt = re.sub(r'\(\*.*?\*\)', '', txt, flags=re.S)
-        for m in re.finditer(r'From\s+BV\s+Require\s+(?:Import|Export)\s+(.*?)\.(?=\s|$)', txt, flags=re.S):
+        for m in re.finditer(r'From\s+BV\s+Require\s+(?:(?:Import|Export)\s+)?(.*?)\.(?=\s|$)', txt, flags=re.S):
             for mod in m.group(1).split():
                 todo.append(mod.replace('.', '/') + '.v')
     return sorted(seen)
